@@ -298,6 +298,19 @@ def nd_setitem(ex, arr, key, v):
             set_region(ex, arr, lambda idx: me(idx), lambda idx: v)
             return
         raise Unsupported("masked assignment of an array value")
+    if isinstance(key, tuple) and key and isinstance(key[0], NDArray) and key[0].dtype == "bool" and \
+            all(is_intlike(k) and not isinstance(k, bool) for k in key[1:]) and key[0].ndim + len(key) - 1 == arr.ndim and _is_scalar(v):
+        # a[mask, i, ...] = scalar with a boolean mask over the LEADING axes and integers on the others: every position
+        # the mask selects, at those integers (numpy: the mask stands for its nonzero() index arrays, broadcast with the ints)
+        mk = key[0]
+        kd = mk.ndim
+        for d in range(kd):
+            ex.ctx.check_or_raise(to_z3(mk.shape[d]) == to_z3(arr.shape[d]), "IndexError", "boolean index did not match indexed array")
+        me, _ = mk.snapshot()
+        ints = [norm_index(ex, k, arr.shape[kd + t], f"index for axis {kd + t}") for t, k in enumerate(key[1:])]
+        set_region(ex, arr, lambda idx: zand(me(tuple(idx[:kd])), *[to_z3(idx[kd + t]) == to_z3(i) for t, i in enumerate(ints)]),
+                   lambda idx: v)
+        return
     keys = expand_key(ex, arr, key)
     if any(k is None for k in keys):
         raise Unsupported("newaxis in assignment")
